@@ -117,6 +117,7 @@ pub fn main(args: &[String]) -> i32 {
     let o = Opts::parse(args);
     let extra = o.num("extra", 2) as usize;
     let forward_all = o.has("forward-all");
+    let ghost_every = o.num("ghost-every", 1).max(1);
     let mut logf: Option<std::fs::File> = o.get("tlc-log").map(|p| std::fs::File::create(p).expect("log file"));
     let stdin = std::io::stdin();
     let stdout = std::io::stdout();
@@ -133,7 +134,10 @@ pub fn main(args: &[String]) -> i32 {
         let Some(tv) = rec.get("text") else { return };
         n += 1;
         let text: &'static str = Box::leak(uncps(tv).into_boxed_str());
-        let forms: Vec<Value> = ["flat", "flat_wo", "deep", "d2f", "f2d", "deep_g", "flat_g"].iter().map(|f| form(f, text, extra)).collect();
+        // the forms with listed-but-absent variables are never identical to the TLC expectation (always forwarded to the judge):
+        // in big enumerations they are built for every `ghost_every`-th text only
+        let names: &[&str] = if n % ghost_every == 0 { &["flat", "flat_wo", "deep", "d2f", "f2d", "deep_g", "flat_g"] } else { &["flat", "flat_wo", "deep", "d2f", "f2d"] };
+        let forms: Vec<Value> = names.iter().map(|f| form(f, text, extra)).collect();
         runs += forms.iter().map(|f| f.get("evals").and_then(|e| e.as_array()).map(|a| a.len()).unwrap_or(1) as u64).sum::<u64>();
         // identical to the TLC expectation: variable lists equal, strict ok exactly at len = n with the expected
         // tree, relaxed ok exactly from len >= n on
